@@ -172,6 +172,33 @@ Proof.
     constructor; [split; [reflexivity | apply solve_is_fresh_iff; exact H1] | apply IH; assumption].
 Qed.
 
+(* the finite domain is structurally complete: every pair the dependency table knows lies in it *)
+Definition pair_in_domain (e v : string) : bool := mems e domain_elements && mems v domain_columns.
+Definition deps_rows_in_domain : bool :=
+  forallb (fun r => forallb (fun e => forallb (fun v => pair_in_domain e v) (snd (fst r))) (fst (fst r))) deps_rows.
+Lemma deps_rows_in_domain_check : deps_rows_in_domain = true.
+Proof. vm_compute. reflexivity. Qed.
+Lemma mems_In' s l : mems s l = true -> In s l.
+Proof.
+  unfold mems. rewrite existsb_exists. intros (x & Hx & E). apply String.eqb_eq in E. subst. exact Hx.
+Qed.
+Lemma pair_in_domain_In e v : pair_in_domain e v = true -> In (e, v) domain.
+Proof.
+  unfold pair_in_domain. rewrite andb_true_iff. intros [He Hv]. apply mems_In' in He. apply mems_In' in Hv.
+  unfold domain. apply in_flat_map. exists e. split; [exact He|]. apply in_map. exact Hv.
+Qed.
+Lemma deps_in_domain e v : deps e v <> [] -> In (e, v) domain.
+Proof.
+  unfold deps. destruct (find (row_matches e v) deps_rows) as [r|] eqn:F; [|intros H; exfalso; apply H; reflexivity].
+  intros _. apply find_some in F. destruct F as [Hin Hm].
+  unfold row_matches in Hm. apply andb_true_iff in Hm. destruct Hm as [He Hv].
+  apply mems_In' in He. apply mems_In' in Hv.
+  pose proof deps_rows_in_domain_check as C. unfold deps_rows_in_domain in C.
+  rewrite forallb_forall in C. specialize (C r Hin).
+  rewrite forallb_forall in C. specialize (C e He).
+  rewrite forallb_forall in C. specialize (C v Hv).
+  apply pair_in_domain_In. exact C.
+Qed.
 (* exhaustive over the finite (element, variable) domain: every ConstControl is sound *)
 Definition sound_table_ok : bool :=
   forallb (fun ev => sound (CConst false (fst ev) (snd ev))) domain.
@@ -194,7 +221,7 @@ Proof.
   specialize (H _ Hin). cbn [fst snd] in H. apply eqb_prop in H. rewrite H. tauto.
 Qed.
 Lemma recycle_old_refuted : sound_old (CConst false "line" "length_km") = false /\ In ("line", "length_km") domain.
-Proof. split; [vm_compute; reflexivity|]. vm_compute. tauto. Qed.
+Proof. split; [vm_compute; reflexivity|]. apply pair_in_domain_In. vm_compute. reflexivity. Qed.
 (* with recycle=False given by the user, and for tap controllers and other classes, every pair is sound *)
 Lemma user_off_sound e v : sound (CConst true e v) = true.
 Proof. reflexivity. Qed.
@@ -209,6 +236,30 @@ Proof.
   destruct (e =? "trafo") eqn:E1.
   - apply String.eqb_eq in E1. subst. vm_compute. reflexivity.
   - cbn in E. rewrite orb_false_r in E. apply String.eqb_eq in E. subst. vm_compute. reflexivity.
+Qed.
+
+(* hence a ConstControl on ANY (element, variable) - inside or outside the domain - is sound: outside the domain nothing
+   cached depends on the column *)
+Lemma write_nil_fresh e v : deps e v = [] -> forall p, write (e, v) all_fresh p = true.
+Proof.
+  intros E p. unfold write, write_m, all_fresh. cbn [fst snd]. rewrite E.
+  replace (existsb (fun p0 : part => memp p0 []) (sources p)) with false; [reflexivity|].
+  symmetry. induction (sources p) as [|x l IH]; [reflexivity | exact IH].
+Qed.
+Lemma const_sound_any u e v : sound (CConst u e v) = true.
+Proof.
+  destruct (deps e v) as [|p0 l0] eqn:E.
+  - unfold sound. destruct (ctrl_flags (CConst u e v)) as [f|]; [|reflexivity].
+    apply solve_is_fresh_iff. apply covered_recycled. intros p.
+    change (ctrl_writes (CConst u e v)) with (e, v). rewrite (write_nil_fresh e v E p). reflexivity.
+  - apply const_sound_all. apply deps_in_domain. rewrite E. discriminate.
+Qed.
+Lemma step_equals_fresh_any n cs stored fr :
+  fresh fr -> Forall (fun fr' => solve_is_fresh fr' = true) (run_steps n cs stored fr).
+Proof.
+  intros Hf. apply step_equals_fresh; [|exact Hf].
+  rewrite Forall_forall. intros c _. destruct c as [u e v|u e|e v];
+    [apply const_sound_any | apply tap_sound | reflexivity].
 Qed.
 
 (* every controller the model knows is sound when its ConstControl pairs come from the domain *)
